@@ -122,27 +122,25 @@ func c10Allocs() uint64 {
 }
 
 // c10MayClaimHuge is a purely syntactic guard for the byte-level inputs: the
-// input contains a 5- or 9-byte BigSize whose value lies in [2^30, 2^63).
+// input contains a 5- or 9-byte BigSize whose value lies in [2^24, 2^63).
 // (Token-level inputs carry the label `claim` computed by TlvStreamGen: some
-// length token is 0xffffffff or 2^32.)  The unrepaired
-// DecodeWithParsedTypes answers such a *claimed* length with a zeroed
-// allocation of that size (4 GiB for the boundary classes 0xffffffff and
-// 2^32).  An entry point that has been observed doing so c10BigBudget times
-// is not called again on inputs the guard matches (recorded as s = 1 and
-// counted); an entry point that never over-allocates is never skipped.
+// length token is 0xffffffff or 2^32.)  The unrepaired DecodeWithParsedTypes
+// answers such a *claimed* length with a zeroed allocation of that size
+// (16 MiB and up; 4 GiB for the boundary classes 0xffffffff and 2^32), and so
+// does DVarBytes for a known []byte record.  An entry point that has been
+// observed doing so c10BigBudget times is not called again on inputs the
+// guard matches (recorded as s = 1 and counted); an entry point that never
+// over-allocates is never skipped.
 func c10MayClaimHuge(in []byte) bool {
 	for i := range in {
-		if in[i] == 0xfe && i+4 < len(in) && in[i+1] >= 0x40 {
+		if in[i] == 0xfe && i+4 < len(in) && in[i+1] >= 0x01 {
 			return true
 		}
 		if in[i] == 0xff && i+8 < len(in) && in[i+1] < 0x80 {
-			for _, b := range in[i+1 : i+5] {
+			for _, b := range in[i+1 : i+6] {
 				if b != 0 {
 					return true
 				}
-			}
-			if in[i+5] >= 0x40 {
-				return true
 			}
 		}
 	}
